@@ -17,66 +17,68 @@ Definition F_T_cleaning : field := 6.
 Definition F_T_cancelCtx : field := 7.
 Definition F_T_cleanups : field := 8.
 Definition F_T_skipping : field := 9.
-Definition F_Generator_impl : field := 10.
-Definition F_pkg_anyRuneGen : field := 11.
-Definition F_Generator_str : field := 12.
-Definition F_pkg_flags : field := 13.
-Definition F_pkg_tracebackBlacklist : field := 14.
-Definition F_asAnyGen_gen : field := 15.
-Definition F_castGen_gen : field := 16.
-Definition F_castGen_typ : field := 17.
-Definition F_customGen_fn : field := 18.
-Definition F_deferredGen_fn : field := 19.
-Definition F_deferredGen_g : field := 20.
-Definition F_filteredGen_g : field := 21.
-Definition F_filteredGen_fn : field := 22.
-Definition F_floatGen_min : field := 23.
-Definition F_floatGen_minVal : field := 24.
-Definition F_floatGen_max : field := 25.
-Definition F_floatGen_maxVal : field := 26.
-Definition F_integerGen_hasMin : field := 27.
-Definition F_integerGen_hasMax : field := 28.
-Definition F_integerKindInfo_signed : field := 29.
-Definition F_integerGen_kind : field := 30.
-Definition F_integerKindInfo_smin : field := 31.
-Definition F_integerKindInfo_smax : field := 32.
-Definition F_integerGen_umin : field := 33.
-Definition F_integerKindInfo_umax : field := 34.
-Definition F_makeGen_gen : field := 35.
-Definition F_mapGen_key : field := 36.
-Definition F_mapGen_minLen : field := 37.
-Definition F_mapGen_maxLen : field := 38.
-Definition F_mapGen_val : field := 39.
-Definition F_mapGen_keyFn : field := 40.
-Definition F_mappedGen_g : field := 41.
-Definition F_mappedGen_fn : field := 42.
-Definition F_oneOfGen_gens : field := 43.
-Definition F_permGen_slice : field := 44.
-Definition F_ptrGen_elem : field := 45.
-Definition F_ptrGen_allowNil : field := 46.
-Definition F_regexpGen_expr : field := 47.
-Definition F_regexpGen_syn : field := 48.
-Definition F_pkg_regexpNames : field := 49.
-Definition F_pkg_charClassGens : field := 50.
-Definition F_pkg_expandedTables : field := 51.
-Definition F_pkg_anyRuneGenNoNL : field := 52.
-Definition F_regexpGen_re : field := 53.
-Definition F_runeGen_default_ : field := 54.
-Definition F_runeGen_runes : field := 55.
-Definition F_runeGen_tables : field := 56.
-Definition F_runeGen_die : field := 57.
-Definition F_loadedDie_table : field := 58.
-Definition F_sampledGen_slice : field := 59.
-Definition F_sliceGen_keyFn : field := 60.
-Definition F_sliceGen_minLen : field := 61.
-Definition F_sliceGen_maxLen : field := 62.
-Definition F_sliceGen_elem : field := 63.
-Definition F_stringGen_elem : field := 64.
-Definition F_stringGen_minRunes : field := 65.
-Definition F_stringGen_maxRunes : field := 66.
-Definition F_stringGen_maxLen : field := 67.
+Definition F_T_noData : field := 10.
+Definition F_T_skipped : field := 11.
+Definition F_Generator_impl : field := 12.
+Definition F_pkg_anyRuneGen : field := 13.
+Definition F_Generator_str : field := 14.
+Definition F_pkg_flags : field := 15.
+Definition F_pkg_tracebackBlacklist : field := 16.
+Definition F_asAnyGen_gen : field := 17.
+Definition F_castGen_gen : field := 18.
+Definition F_castGen_typ : field := 19.
+Definition F_customGen_fn : field := 20.
+Definition F_deferredGen_fn : field := 21.
+Definition F_deferredGen_g : field := 22.
+Definition F_filteredGen_g : field := 23.
+Definition F_filteredGen_fn : field := 24.
+Definition F_floatGen_min : field := 25.
+Definition F_floatGen_minVal : field := 26.
+Definition F_floatGen_max : field := 27.
+Definition F_floatGen_maxVal : field := 28.
+Definition F_integerGen_hasMin : field := 29.
+Definition F_integerGen_hasMax : field := 30.
+Definition F_integerKindInfo_signed : field := 31.
+Definition F_integerGen_kind : field := 32.
+Definition F_integerKindInfo_smin : field := 33.
+Definition F_integerKindInfo_smax : field := 34.
+Definition F_integerGen_umin : field := 35.
+Definition F_integerKindInfo_umax : field := 36.
+Definition F_makeGen_gen : field := 37.
+Definition F_mapGen_key : field := 38.
+Definition F_mapGen_minLen : field := 39.
+Definition F_mapGen_maxLen : field := 40.
+Definition F_mapGen_val : field := 41.
+Definition F_mapGen_keyFn : field := 42.
+Definition F_mappedGen_g : field := 43.
+Definition F_mappedGen_fn : field := 44.
+Definition F_oneOfGen_gens : field := 45.
+Definition F_permGen_slice : field := 46.
+Definition F_ptrGen_elem : field := 47.
+Definition F_ptrGen_allowNil : field := 48.
+Definition F_regexpGen_expr : field := 49.
+Definition F_regexpGen_syn : field := 50.
+Definition F_pkg_regexpNames : field := 51.
+Definition F_pkg_charClassGens : field := 52.
+Definition F_pkg_expandedTables : field := 53.
+Definition F_pkg_anyRuneGenNoNL : field := 54.
+Definition F_regexpGen_re : field := 55.
+Definition F_runeGen_default_ : field := 56.
+Definition F_runeGen_runes : field := 57.
+Definition F_runeGen_tables : field := 58.
+Definition F_runeGen_die : field := 59.
+Definition F_loadedDie_table : field := 60.
+Definition F_sampledGen_slice : field := 61.
+Definition F_sliceGen_keyFn : field := 62.
+Definition F_sliceGen_minLen : field := 63.
+Definition F_sliceGen_maxLen : field := 64.
+Definition F_sliceGen_elem : field := 65.
+Definition F_stringGen_elem : field := 66.
+Definition F_stringGen_minRunes : field := 67.
+Definition F_stringGen_maxRunes : field := 68.
+Definition F_stringGen_maxLen : field := 69.
 
-Definition field_names : list (field * string) := [(0, "T.tb"); (1, "T.rawLog"); (2, "T.tbLog"); (3, "T.failed"); (4, "T.parent"); (5, "T.ctx"); (6, "T.cleaning"); (7, "T.cancelCtx"); (8, "T.cleanups"); (9, "T.skipping"); (10, "Generator.impl"); (11, "pkg.anyRuneGen"); (12, "Generator.str"); (13, "pkg.flags"); (14, "pkg.tracebackBlacklist"); (15, "asAnyGen.gen"); (16, "castGen.gen"); (17, "castGen.typ"); (18, "customGen.fn"); (19, "deferredGen.fn"); (20, "deferredGen.g"); (21, "filteredGen.g"); (22, "filteredGen.fn"); (23, "floatGen.min"); (24, "floatGen.minVal"); (25, "floatGen.max"); (26, "floatGen.maxVal"); (27, "integerGen.hasMin"); (28, "integerGen.hasMax"); (29, "integerKindInfo.signed"); (30, "integerGen.kind"); (31, "integerKindInfo.smin"); (32, "integerKindInfo.smax"); (33, "integerGen.umin"); (34, "integerKindInfo.umax"); (35, "makeGen.gen"); (36, "mapGen.key"); (37, "mapGen.minLen"); (38, "mapGen.maxLen"); (39, "mapGen.val"); (40, "mapGen.keyFn"); (41, "mappedGen.g"); (42, "mappedGen.fn"); (43, "oneOfGen.gens"); (44, "permGen.slice"); (45, "ptrGen.elem"); (46, "ptrGen.allowNil"); (47, "regexpGen.expr"); (48, "regexpGen.syn"); (49, "pkg.regexpNames"); (50, "pkg.charClassGens"); (51, "pkg.expandedTables"); (52, "pkg.anyRuneGenNoNL"); (53, "regexpGen.re"); (54, "runeGen.default_"); (55, "runeGen.runes"); (56, "runeGen.tables"); (57, "runeGen.die"); (58, "loadedDie.table"); (59, "sampledGen.slice"); (60, "sliceGen.keyFn"); (61, "sliceGen.minLen"); (62, "sliceGen.maxLen"); (63, "sliceGen.elem"); (64, "stringGen.elem"); (65, "stringGen.minRunes"); (66, "stringGen.maxRunes"); (67, "stringGen.maxLen")].
+Definition field_names : list (field * string) := [(0, "T.tb"); (1, "T.rawLog"); (2, "T.tbLog"); (3, "T.failed"); (4, "T.parent"); (5, "T.ctx"); (6, "T.cleaning"); (7, "T.cancelCtx"); (8, "T.cleanups"); (9, "T.skipping"); (10, "T.noData"); (11, "T.skipped"); (12, "Generator.impl"); (13, "pkg.anyRuneGen"); (14, "Generator.str"); (15, "pkg.flags"); (16, "pkg.tracebackBlacklist"); (17, "asAnyGen.gen"); (18, "castGen.gen"); (19, "castGen.typ"); (20, "customGen.fn"); (21, "deferredGen.fn"); (22, "deferredGen.g"); (23, "filteredGen.g"); (24, "filteredGen.fn"); (25, "floatGen.min"); (26, "floatGen.minVal"); (27, "floatGen.max"); (28, "floatGen.maxVal"); (29, "integerGen.hasMin"); (30, "integerGen.hasMax"); (31, "integerKindInfo.signed"); (32, "integerGen.kind"); (33, "integerKindInfo.smin"); (34, "integerKindInfo.smax"); (35, "integerGen.umin"); (36, "integerKindInfo.umax"); (37, "makeGen.gen"); (38, "mapGen.key"); (39, "mapGen.minLen"); (40, "mapGen.maxLen"); (41, "mapGen.val"); (42, "mapGen.keyFn"); (43, "mappedGen.g"); (44, "mappedGen.fn"); (45, "oneOfGen.gens"); (46, "permGen.slice"); (47, "ptrGen.elem"); (48, "ptrGen.allowNil"); (49, "regexpGen.expr"); (50, "regexpGen.syn"); (51, "pkg.regexpNames"); (52, "pkg.charClassGens"); (53, "pkg.expandedTables"); (54, "pkg.anyRuneGenNoNL"); (55, "regexpGen.re"); (56, "runeGen.default_"); (57, "runeGen.runes"); (58, "runeGen.tables"); (59, "runeGen.die"); (60, "loadedDie.table"); (61, "sampledGen.slice"); (62, "sliceGen.keyFn"); (63, "sliceGen.minLen"); (64, "sliceGen.maxLen"); (65, "sliceGen.elem"); (66, "stringGen.elem"); (67, "stringGen.minRunes"); (68, "stringGen.maxRunes"); (69, "stringGen.maxLen")].
 
 Definition MU_T_mu : mutex := 0.
 Definition O_Generator_strOnce : once := 0.
@@ -94,7 +96,7 @@ Definition t_methods : table := [
   ("T.Name", [
     IAcc F_T_tb false;
     ICall "tb.Name"]);
-  (* engine.go:724 *)
+  (* engine.go:734 *)
   ("T.Log", [
     IAcc F_T_rawLog false;
     IAcc F_T_rawLog false;
@@ -104,7 +106,7 @@ Definition t_methods : table := [
     ICall "t.tb.Helper";
     IAcc F_T_tb false;
     ICall "t.tb.Log"]);
-  (* engine.go:715 *)
+  (* engine.go:725 *)
   ("T.Logf", [
     IAcc F_T_rawLog false;
     IAcc F_T_rawLog false;
@@ -114,7 +116,7 @@ Definition t_methods : table := [
     ICall "t.tb.Helper";
     IAcc F_T_tb false;
     ICall "t.tb.Logf"]);
-  (* engine.go:772 *)
+  (* engine.go:782 *)
   ("T.Error", [
     IAcc F_T_tbLog false;
     IAcc F_T_tb false;
@@ -134,7 +136,7 @@ Definition t_methods : table := [
       IAcc F_T_parent false;
       ICall "t.parent.fail";
       IAcc F_T_failed false]]);
-  (* engine.go:763 *)
+  (* engine.go:773 *)
   ("T.Errorf", [
     IAcc F_T_tbLog false;
     IAcc F_T_tb false;
@@ -154,7 +156,7 @@ Definition t_methods : table := [
       IAcc F_T_parent false;
       ICall "t.parent.fail";
       IAcc F_T_failed false]]);
-  (* engine.go:802 *)
+  (* engine.go:812 *)
   ("T.Fail", [
     ILocked MU_T_mu MW [
       IAcc F_T_failed true;
@@ -162,11 +164,11 @@ Definition t_methods : table := [
       IAcc F_T_parent false;
       ICall "t.parent.fail";
       IAcc F_T_failed false]]);
-  (* engine.go:806 *)
+  (* engine.go:816 *)
   ("T.Failed", [
     ILocked MU_T_mu MR [
       IAcc F_T_failed false]]);
-  (* engine.go:575 *)
+  (* engine.go:576 *)
   ("T.Context", [
     ILocked MU_T_mu MR [
       IAcc F_T_ctx false];
@@ -183,12 +185,12 @@ Definition t_methods : table := [
       ICall "context.WithCancel";
       IAcc F_T_ctx true;
       IAcc F_T_cancelCtx true]]);
-  (* engine.go:634 *)
+  (* engine.go:635 *)
   ("T.Cleanup", [
     ILocked MU_T_mu MW [
       IAcc F_T_cleanups false;
       IAcc F_T_cleanups true]]);
-  (* engine.go:743 *)
+  (* engine.go:753 *)
   ("T.Skip", [
     IAcc F_T_tbLog false;
     IAcc F_T_tb false;
@@ -203,7 +205,7 @@ Definition t_methods : table := [
     ICall "t.tb.Log";
     ICall "fmt.Sprint";
     IAtomic F_T_skipping true]);
-  (* engine.go:734 *)
+  (* engine.go:744 *)
   ("T.Skipf", [
     IAcc F_T_tbLog false;
     IAcc F_T_tb false;
@@ -218,10 +220,10 @@ Definition t_methods : table := [
     ICall "t.tb.Logf";
     ICall "fmt.Sprintf";
     IAtomic F_T_skipping true]);
-  (* engine.go:758 *)
+  (* engine.go:768 *)
   ("T.SkipNow", [
     IAtomic F_T_skipping true]);
-  (* engine.go:790 *)
+  (* engine.go:800 *)
   ("T.Fatal", [
     IAcc F_T_tbLog false;
     IAcc F_T_tb false;
@@ -241,7 +243,7 @@ Definition t_methods : table := [
       IAcc F_T_parent false;
       ICall "t.parent.fail";
       IAcc F_T_failed false]]);
-  (* engine.go:781 *)
+  (* engine.go:791 *)
   ("T.Fatalf", [
     IAcc F_T_tbLog false;
     IAcc F_T_tb false;
@@ -261,7 +263,7 @@ Definition t_methods : table := [
       IAcc F_T_parent false;
       ICall "t.parent.fail";
       IAcc F_T_failed false]]);
-  (* engine.go:798 *)
+  (* engine.go:808 *)
   ("T.FailNow", [
     ILocked MU_T_mu MW [
       IAcc F_T_failed true;
@@ -269,7 +271,7 @@ Definition t_methods : table := [
       IAcc F_T_parent false;
       ICall "t.parent.fail";
       IAcc F_T_failed false]]);
-  (* engine.go:818 *)
+  (* engine.go:828 *)
   ("T.fail", [
     ILocked MU_T_mu MW [
       IAcc F_T_failed true;
@@ -277,17 +279,17 @@ Definition t_methods : table := [
       IAcc F_T_parent false;
       ICall "t.parent.fail";
       IAcc F_T_failed false]]);
-  (* engine.go:857 *)
+  (* engine.go:867 *)
   ("T.failOnError", [
     ILocked MU_T_mu MR [
       IAcc F_T_failed false;
       IAcc F_T_failed false]]);
-  (* engine.go:835 *)
+  (* engine.go:845 *)
   ("T.failedError", [
     ILocked MU_T_mu MR [
       IAcc F_T_failed false;
       IAcc F_T_failed false]]);
-  (* engine.go:643 *)
+  (* engine.go:644 *)
   ("T.cleanup", [
     IAtomic F_T_cleaning true;
     ILocked MU_T_mu MW [
@@ -306,20 +308,42 @@ Definition t_methods : table := [
     ICall "cleanup";
     IAcc F_T_parent false;
     IAtomic F_T_skipping false;
+    ILocked MU_T_mu MW [
+      IAcc F_T_noData false;
+      IAcc F_T_noData true];
     ICall "root.mu.Lock";
     ICall "root.mu.Unlock";
     ILocked MU_T_mu MW [
       IAcc F_T_cleanups false];
     ICall "T.cleanup (recursive)";
     IAtomic F_T_cleaning true]);
-  (* engine.go:560 *)
+  (* engine.go:561 *)
   ("T.shouldLog", [
     IAcc F_T_rawLog false;
-    IAcc F_T_tbLog false])
+    IAcc F_T_tbLog false]);
+  (* engine.go:689 *)
+  ("T.runCleanup", [
+    IAtomic F_T_skipping true;
+    ICall "cleanup";
+    IAcc F_T_parent false;
+    IAtomic F_T_skipping false;
+    ILocked MU_T_mu MW [
+      IAcc F_T_noData false;
+      IAcc F_T_noData true];
+    ICall "root.mu.Lock";
+    ICall "root.mu.Unlock"]);
+  (* engine.go:856 *)
+  ("T.skippedError", [
+    ILocked MU_T_mu MR [
+      IAcc F_T_skipped false;
+      IAcc F_T_skipped false]]);
+  (* engine.go:823 *)
+  ("T.skip", [
+    IAtomic F_T_skipping true])
 ].
 
 (* fields the table only reads and nothing outside constructors writes *)
-Definition t_init_only : list field := [F_T_parent; F_T_rawLog; F_T_tb; F_T_tbLog].
+Definition t_init_only : list field := [F_T_parent; F_T_rawLog; F_T_skipped; F_T_tb; F_T_tbLog].
 
 (* ---- *Generator[V] and every generatorImpl type (types with a method value(t *T)): asAnyGen, boolGen, castGen, customGen, deferredGen, filteredGen, float32Gen, float64Gen, integerGen, makeGen, mapGen, mappedGen, oneOfGen, permGen, ptrGen, regexpSliceGen, regexpStringGen, runeGen, sampledGen, sliceGen, stringGen ---- *)
 Definition g_methods : table := [
@@ -383,11 +407,11 @@ Definition g_methods : table := [
   ("Generator.Filter", []);
   (* generator.go:99 *)
   ("Generator.AsAny", []);
-  (* combinators.go:293 *)
+  (* combinators.go:302 *)
   ("asAnyGen.String", [
     IAcc F_asAnyGen_gen false;
     ICall "fmt.Sprintf"]);
-  (* combinators.go:297 *)
+  (* combinators.go:306 *)
   ("asAnyGen.value", [
     IAcc F_asAnyGen_gen false;
     IAcc F_pkg_anyRuneGen false;
@@ -423,11 +447,13 @@ Definition g_methods : table := [
     ICall "g.fn";
     ICall "t.failOnError";
     ICall "t.cleanup";
+    ICall "t.mu.RLock";
+    ICall "t.mu.RUnlock";
     ICall "t.Failed"]);
-  (* combinators.go:79 *)
+  (* combinators.go:88 *)
   ("deferredGen.String", [
     ICall "fmt.Sprintf"]);
-  (* combinators.go:84 *)
+  (* combinators.go:93 *)
   ("deferredGen.value", [
     IOnce O_deferredGen_once [
       IAcc F_deferredGen_fn false;
@@ -436,11 +462,11 @@ Definition g_methods : table := [
     IAcc F_deferredGen_g false;
     IAcc F_pkg_anyRuneGen false;
     ICall "g.g.value"]);
-  (* combinators.go:103 *)
+  (* combinators.go:112 *)
   ("filteredGen.String", [
     IAcc F_filteredGen_g false;
     ICall "fmt.Sprintf"]);
-  (* combinators.go:107 *)
+  (* combinators.go:116 *)
   ("filteredGen.value", [
     IAcc F_filteredGen_g false;
     IAcc F_pkg_anyRuneGen false;
@@ -582,45 +608,45 @@ Definition g_methods : table := [
     IAcc F_mapGen_keyFn false;
     ICall "g.keyFn";
     ICall "repeat.reject"]);
-  (* combinators.go:147 *)
+  (* combinators.go:156 *)
   ("mappedGen.String", [
     IAcc F_mappedGen_g false;
     IAcc F_mappedGen_fn false;
     ICall "fmt.Sprintf"]);
-  (* combinators.go:151 *)
+  (* combinators.go:160 *)
   ("mappedGen.value", [
     IAcc F_mappedGen_g false;
     IAcc F_pkg_anyRuneGen false;
     ICall "g.g.value";
     IAcc F_mappedGen_fn false;
     ICall "g.fn"]);
-  (* combinators.go:237 *)
+  (* combinators.go:246 *)
   ("oneOfGen.String", [
     IAcc F_oneOfGen_gens false;
     IAcc F_oneOfGen_gens false;
     ICall "g.String";
     ICall "strings.Join";
     ICall "fmt.Sprintf"]);
-  (* combinators.go:246 *)
+  (* combinators.go:255 *)
   ("oneOfGen.value", [
     IAcc F_oneOfGen_gens false;
     IAcc F_oneOfGen_gens false;
     IAcc F_pkg_anyRuneGen false;
     ICall "g.gens.value"]);
-  (* combinators.go:200 *)
+  (* combinators.go:209 *)
   ("permGen.String", [
     IAcc F_permGen_slice false;
     ICall "fmt.Sprintf"]);
-  (* combinators.go:205 *)
+  (* combinators.go:214 *)
   ("permGen.value", [
     IAcc F_permGen_slice false;
     ICall "repeat.more"]);
-  (* combinators.go:265 *)
+  (* combinators.go:274 *)
   ("ptrGen.String", [
     IAcc F_ptrGen_elem false;
     IAcc F_ptrGen_allowNil false;
     ICall "fmt.Sprintf"]);
-  (* combinators.go:269 *)
+  (* combinators.go:278 *)
   ("ptrGen.value", [
     IAcc F_ptrGen_allowNil false;
     IAcc F_ptrGen_elem false;
@@ -709,7 +735,7 @@ Definition g_methods : table := [
     IAcc F_runeGen_runes false;
     IAcc F_runeGen_tables false;
     IAcc F_runeGen_tables false]);
-  (* combinators.go:175 *)
+  (* combinators.go:184 *)
   ("sampledGen.String", [
     IAcc F_sampledGen_slice false;
     IAcc F_sampledGen_slice false;
@@ -717,7 +743,7 @@ Definition g_methods : table := [
     IAcc F_sampledGen_slice false;
     IAcc F_sampledGen_slice false;
     ICall "fmt.Sprintf"]);
-  (* combinators.go:183 *)
+  (* combinators.go:192 *)
   ("sampledGen.value", [
     IAcc F_sampledGen_slice false;
     IAcc F_sampledGen_slice false]);
